@@ -76,6 +76,7 @@ func propC05(w *World, r *Report) {
 	defer c05Canon(info, fd)()
 	br := newBoundsRun(w)
 	p := br.prover(fn)
+	checkSubrSource(w, r, fn)
 
 	// ---- opcoverage
 	caseConsts := map[int64]*ast.CaseClause{}
